@@ -139,7 +139,7 @@ theorem corpus_minimax_label_sound_of_precise {g : Game Pos Move} (hg : GameOK g
     (h : minimaxWorker (searchEngine g cfg o) size ps = .ok es) :
     ∀ x ∈ ps.zip es, (x.2.value = .win → Win g x.1) ∧ (x.2.value = .loss → Loss g x.1) := by
   obtain ⟨rs, s', hrun, hpos, hlab⟩ := corpus_minimax_worker_is_history g cfg o ps (Eng.new g cfg) es h
-  have hsound := verdict_sound hg he hinj hpr (ps.map fun p => (p, o))
+  have hsound := verdict_sound hg he hinj.ok hpr (ps.map fun p => (p, o))
     (by intro x hx; simp only [List.mem_map] at hx; obtain ⟨_, _, rfl⟩ := hx; exact hord) _ hrun
   intro x hx
   -- x = (ps[i], es[i]); rs[i] = (ps[i], v) with es[i].value = minimaxLabel v
